@@ -60,3 +60,287 @@ Theorem C03_independent_of_chunking_and_buffers :
     pending (br (snd (run_ops inflate2 c2 (init_rst b2) ops))).
 Proof. exact read_messages_independent. Qed.
 Print Assumptions C03_independent_of_chunking_and_buffers.
+
+(* ------------------------------------------------------------------------------------------ *)
+(* Compressed (permessage-deflate, RSV1) messages: proofs in Proofs/ReaderZ1-3.v and          *)
+(* Proofs/ReaderFlateP.v.  This removes the "compressed messages" item from the PARTIAL note   *)
+(* above for the ReadMessage loop.                                                             *)
+(* ------------------------------------------------------------------------------------------ *)
+Require Import WS.Proofs.ReaderZ1 WS.Proofs.ReaderZ2 WS.Proofs.ReaderZ3 WS.Proofs.ReaderFlateP
+  WS.Proofs.ReaderFlatePTest.
+Require WS.Spec.Inflate WS.Proofs.InflateP.
+
+(* [conformant_framesZ c fs]: every frame passes Spec.Conformance.violates for the reader's role
+   AND its negotiated flag (so RSV1 is allowed when [negotiated c = true]), no close frame, the
+   list ends at a message boundary.  For [negotiated c = false] this is [conformant_frames]. *)
+Theorem C03_conformantZ_is_conformant_without_negotiation :
+  forall c fs, negotiated c = false -> (conformant_framesZ c fs <-> conformant_frames c fs).
+Proof. exact conformant_framesZ_false. Qed.
+Print Assumptions C03_conformantZ_is_conformant_without_negotiation.
+
+(* For EVERY such frame list (compressed and uncompressed messages mixed, any fragmentation,
+   control frames between the fragments of a compressed message), EVERY inflate function, role,
+   bufio state, chunking, fault, capacity schedule: n ReadMessage calls return the n data
+   messages in order -- [out_ofZ inflate (ty, compressed, payload)] is [RMsg ty payload None] for
+   an uncompressed message and, for a compressed one, [RMsg ty d None] when
+   [inflate (payload ++ 00 00 ff ff 01 00 00 ff ff) = Some d], [RMsg ty [] (Some RFlate)]
+   otherwise (the reader then carries on with the next message) -- each ping is answered, no
+   byte is lost. *)
+Theorem C03_reader_decodes_compressed :
+  forall inflate c b fs extra,
+    custom_handlers c = false -> binv b -> (125 <= bsize b)%nat ->
+    conformant_framesZ c fs -> pending b = encode_frames fs ++ extra ->
+    (trailer fs = [] -> extra = [] -> fault (src b) = EEOF) ->
+    let ms := data_msgs (events_of fs) in
+    exists s',
+      run_ops inflate c (init_rst b) (repeat OReadMessage (length ms))
+        = (map (out_ofZ inflate) ms, s') /\
+      outoffuel s' = false /\ closesent s' = false /\ rem s' = 0 /\ rfin s' = true /\
+      wlog s' = map WPong (pings_of (body fs)) /\
+      pending (br s') = encode_frames (trailer fs) ++ extra /\
+      binv (br s') /\
+      (rerror s' = None \/ (rerror s' = Some RIoEOF /\ trailer fs = [] /\ extra = [])).
+Proof. exact read_messages_generalZ. Qed.
+Print Assumptions C03_reader_decodes_compressed.
+
+(* the flagship form: something follows the frames on the transport *)
+Theorem C03_reader_decodes_compressed_flagship :
+  forall inflate c b fs extra,
+    custom_handlers c = false -> binv b -> (125 <= bsize b)%nat ->
+    conformant_framesZ c fs -> pending b = encode_frames fs ++ extra -> extra <> [] ->
+    let ms := data_msgs (events_of fs) in
+    exists s',
+      run_ops inflate c (init_rst b) (repeat OReadMessage (length ms))
+        = (map (out_ofZ inflate) ms, s') /\
+      outoffuel s' = false /\ rerror s' = None /\ closesent s' = false /\
+      rem s' = 0 /\ rfin s' = true /\
+      wlog s' = map WPong (pings_of (body fs)) /\
+      pending (br s') = encode_frames (trailer fs) ++ extra.
+Proof. exact read_messages_conformantZ. Qed.
+Print Assumptions C03_reader_decodes_compressed_flagship.
+
+(* when every compressed message inflates, no call returns an error *)
+Theorem C03_reader_decodes_compressed_no_error :
+  forall inflate c b fs extra,
+    custom_handlers c = false -> binv b -> (125 <= bsize b)%nat ->
+    conformant_framesZ c fs -> pending b = encode_frames fs ++ extra ->
+    (extra <> [] \/ fault (src b) = EEOF) ->
+    let ms := data_msgs (events_of fs) in
+    Forall (inflates inflate) ms ->
+    exists outs s',
+      run_ops inflate c (init_rst b) (repeat OReadMessage (length ms)) = (outs, s') /\
+      outs = map (out_ofZ inflate) ms /\ Forall out_ok outs /\
+      outoffuel s' = false /\ closesent s' = false /\
+      wlog s' = map WPong (pings_of (body fs)) /\
+      pending (br s') = encode_frames (trailer fs) ++ extra /\
+      (rerror s' = None \/ (rerror s' = Some RIoEOF /\ trailer fs = [] /\ extra = [])).
+Proof. exact read_messages_conformantZ_inflating. Qed.
+Print Assumptions C03_reader_decodes_compressed_no_error.
+
+Theorem C03_end_only_at_true_end_compressed :
+  forall inflate c b fs, custom_handlers c = false -> binv b -> (125 <= bsize b)%nat ->
+    conformant_framesZ c fs -> pending b = encode_frames fs ->
+    (trailer fs = [] -> fault (src b) = EEOF) ->
+    let ms := data_msgs (events_of fs) in
+    exists e s',
+      run_ops inflate c (init_rst b) (repeat OReadMessage (S (length ms))) =
+        (map (out_ofZ inflate) ms ++ [RMsg 0 [] (Some e)], s') /\
+      (e = of_berror (BErr (fault (src b))) \/ (e = RIoEOF /\ trailer fs = [])) /\
+      rerror s' = Some e /\ outoffuel s' = false /\ closesent s' = false /\
+      wlog s' = map WPong (pings_of fs) /\ pending (br s') = [].
+Proof. exact read_messages_then_endZ. Qed.
+Print Assumptions C03_end_only_at_true_end_compressed.
+
+Theorem C03_independent_of_chunking_and_buffers_compressed :
+  forall inflate c1 c2 b1 b2 fs extra,
+    custom_handlers c1 = false -> custom_handlers c2 = false -> server c1 = server c2 ->
+    negotiated c1 = negotiated c2 ->
+    binv b1 -> binv b2 -> (125 <= bsize b1)%nat -> (125 <= bsize b2)%nat ->
+    conformant_framesZ c1 fs -> extra <> [] ->
+    pending b1 = encode_frames fs ++ extra -> pending b2 = encode_frames fs ++ extra ->
+    let ops := repeat OReadMessage (length (data_msgs (events_of fs))) in
+    fst (run_ops inflate c1 (init_rst b1) ops) = fst (run_ops inflate c2 (init_rst b2) ops) /\
+    wlog (snd (run_ops inflate c1 (init_rst b1) ops)) = wlog (snd (run_ops inflate c2 (init_rst b2) ops)) /\
+    pending (br (snd (run_ops inflate c1 (init_rst b1) ops))) =
+    pending (br (snd (run_ops inflate c2 (init_rst b2) ops))).
+Proof. exact read_messages_independentZ. Qed.
+Print Assumptions C03_independent_of_chunking_and_buffers_compressed.
+
+(* end to end with the Spec decoder: application messages [os] = (type, compress?, plaintext);
+   the compressed ones travel as [trunc4 (deflate0 plaintext)] (stored blocks + sync flush, last
+   four bytes removed); ReadMessage with Spec.Inflate.inflate returns the plaintexts. *)
+Theorem C03_compressed_roundtrip_deflate0 :
+  forall c b fs extra os,
+    custom_handlers c = false -> binv b -> (125 <= bsize b)%nat ->
+    conformant_framesZ c fs -> pending b = encode_frames fs ++ extra ->
+    (trailer fs = [] -> extra = [] -> fault (src b) = EEOF) ->
+    data_msgs (events_of fs) = map wire_msg os ->
+    Forall (fun o => snd (fst o) = true -> bytes_ok (snd o)) os ->
+    exists s',
+      run_ops Inflate.inflate c (init_rst b) (repeat OReadMessage (length os))
+        = (map plain_out os, s') /\
+      outoffuel s' = false /\ closesent s' = false /\ rem s' = 0 /\ rfin s' = true /\
+      wlog s' = map WPong (pings_of (body fs)) /\
+      pending (br s') = encode_frames (trailer fs) ++ extra /\
+      binv (br s') /\
+      (rerror s' = None \/ (rerror s' = Some RIoEOF /\ trailer fs = [] /\ extra = [])).
+Proof. exact read_messages_deflate0. Qed.
+Print Assumptions C03_compressed_roundtrip_deflate0.
+
+(* ============================================================================================ *)
+(* General read programs (proofs in Proofs/ReadProgP.v): NextReader followed by Reads of ANY     *)
+(* sizes, messages abandoned at ANY point, ReadMessage mixed in.  This removes the restriction  *)
+(* "read program = ReadMessage loop" of the theorems above (still: uncompressed conformant      *)
+(* streams, default handlers).  Extra hypothesis with respect to C03_reader_decodes_partial:     *)
+(* at least one byte follows the last data frame (a trailing control frame, or [extra]); see     *)
+(* C03_why_a_byte_must_follow.                                                                  *)
+(* ============================================================================================ *)
+Require Import WS.Proofs.CutP WS.Proofs.ReadProgP.
+
+(* One message, one plan [l] of Read sizes.  [reads_ok d l outs] is the exact specification of
+   the outputs (defined in ReadProgP.v, read out in C03_read_plan_meaning): while bytes of [d]
+   remain a Read returns between 1 and len(p) of them, in order, with a nil error (it never
+   returns 0 bytes: empty fragments and interleaved control frames are consumed inside the same
+   call); once all of [d] has been delivered it returns (0, io.EOF), and keeps doing so. *)
+Theorem C03_next_reader_then_reads :
+  forall inflate c b fs extra l ty cc d rest,
+    custom_handlers c = false -> binv b -> (125 <= bsize b)%nat ->
+    conformant_frames c fs -> pending b = encode_frames fs ++ extra ->
+    (trailer fs = [] -> extra <> []) ->
+    Forall (fun m => (0 < m)%nat) l ->
+    data_msgs (events_of fs) = (ty, cc, d) :: rest ->
+    exists outs s',
+      run_ops inflate c (init_rst b) (ONext :: map ORead l) = (RNext ty None :: outs, s') /\
+      reads_ok d l outs /\ reached fs extra s'.
+Proof. exact next_reader_then_reads. Qed.
+Print Assumptions C03_next_reader_then_reads.
+
+Theorem C03_read_plan_meaning : forall d l outs, reads_ok d l outs ->
+  length outs = length l /\
+  Forall (fun r => exists x e, r = RData x e /\ (e = None \/ e = Some RIoEOF)) outs /\
+  (exists rest, d = flat_map rdata outs ++ rest) /\
+  (forall i x e, nth_error outs i = Some (RData x e) ->
+     (e = Some RIoEOF <-> flat_map rdata (firstn i outs) = d) /\
+     (e = Some RIoEOF -> x = [] /\ Forall (fun r => r = RData [] (Some RIoEOF)) (skipn i outs)) /\
+     (e <> Some RIoEOF -> e = None /\ x <> [] /\ (length x <= nth i l 0)%nat)) /\
+  (existsb is_eof_out outs = true -> flat_map rdata outs = d) /\
+  ((length d <= length l)%nat -> flat_map rdata outs = d).
+Proof. exact reads_ok_properties. Qed.
+Print Assumptions C03_read_plan_meaning.
+
+(* Whole programs: one plan per NextReader (a plan may stop early = the message is abandoned,
+   may be empty, may go on after io.EOF).  [prog_ok]: the i-th NextReader returns the i-th data
+   message's type -- whatever was or was not read of the earlier messages -- and the Reads that
+   follow it obey [reads_ok] for the i-th payload.  [reached]: the reader has consumed exactly
+   the frames [pre] (the last one a data frame, [w] of its payload bytes still on the wire), has
+   answered exactly the pings located in [pre], in order, has no error and never ran out of fuel. *)
+Theorem C03_any_read_program :
+  forall inflate c b fs extra (plans:prog),
+    custom_handlers c = false -> binv b -> (125 <= bsize b)%nat ->
+    conformant_frames c fs -> pending b = encode_frames fs ++ extra ->
+    (trailer fs = [] -> extra <> []) ->
+    prog_pos plans -> (length plans <= length (data_msgs (events_of fs)))%nat ->
+    exists outs s',
+      run_ops inflate c (init_rst b) (ops_of_prog plans) = (outs, s') /\
+      prog_ok (data_msgs (events_of fs)) plans outs /\ reached fs extra s'.
+Proof. exact reader_api_general. Qed.
+Print Assumptions C03_any_read_program.
+
+(* the same with ReadMessage calls mixed in *)
+Theorem C03_any_mixed_program :
+  forall inflate c b fs extra cs,
+    custom_handlers c = false -> binv b -> (125 <= bsize b)%nat ->
+    conformant_frames c fs -> pending b = encode_frames fs ++ extra ->
+    (trailer fs = [] -> extra <> []) ->
+    Forall call_pos cs -> (length cs <= length (data_msgs (events_of fs)))%nat ->
+    exists outs s',
+      run_ops inflate c (init_rst b) (flat_map ops_of_call cs) = (outs, s') /\
+      mixed_ok (data_msgs (events_of fs)) cs outs /\ reached fs extra s'.
+Proof. exact reader_api_mixed. Qed.
+Print Assumptions C03_any_mixed_program.
+
+(* Independence: if every message is read to io.EOF ([eof_closed]), the messages the application
+   assembles from the outputs ([gather]) are exactly the data messages of the stream, whatever
+   the read sizes, chunking, buffers ... *)
+Theorem C03_messages_independent_of_plans :
+  forall inflate c b fs extra cs,
+    custom_handlers c = false -> binv b -> (125 <= bsize b)%nat ->
+    conformant_frames c fs -> pending b = encode_frames fs ++ extra ->
+    (trailer fs = [] -> extra <> []) ->
+    Forall call_pos cs -> (length cs <= length (data_msgs (events_of fs)))%nat ->
+    let outs := fst (run_ops inflate c (init_rst b) (flat_map ops_of_call cs)) in
+    eof_closed true outs = true ->
+    gather None outs = map mpair (firstn (length cs) (data_msgs (events_of fs))).
+Proof. exact reader_api_independent. Qed.
+Print Assumptions C03_messages_independent_of_plans.
+
+(* ... the same messages as the ReadMessage loop of C03_reader_decodes_partial returns *)
+Theorem C03_plans_agree_with_read_message_loop :
+  forall inflate c b fs extra (plans:prog),
+    custom_handlers c = false -> binv b -> (125 <= bsize b)%nat ->
+    conformant_frames c fs -> pending b = encode_frames fs ++ extra ->
+    (trailer fs = [] -> extra <> []) ->
+    prog_pos plans -> length plans = length (data_msgs (events_of fs)) ->
+    let ms := data_msgs (events_of fs) in
+    let outs := fst (run_ops inflate c (init_rst b) (ops_of_prog plans)) in
+    eof_closed true outs = true ->
+    gather None outs = map mpair ms /\
+    gather None outs = gather None (fst (run_ops inflate c (init_rst b) (repeat OReadMessage (length ms)))).
+Proof. exact plans_agree_with_read_message_loop. Qed.
+Print Assumptions C03_plans_agree_with_read_message_loop.
+
+(* ... and two different programs over two different transports agree *)
+Theorem C03_two_programs_agree :
+  forall inflate1 inflate2 c1 c2 b1 b2 fs extra cs1 cs2,
+    custom_handlers c1 = false -> custom_handlers c2 = false -> server c1 = server c2 ->
+    binv b1 -> binv b2 -> (125 <= bsize b1)%nat -> (125 <= bsize b2)%nat ->
+    conformant_frames c1 fs -> (trailer fs = [] -> extra <> []) ->
+    pending b1 = encode_frames fs ++ extra -> pending b2 = encode_frames fs ++ extra ->
+    Forall call_pos cs1 -> Forall call_pos cs2 -> length cs1 = length cs2 ->
+    (length cs1 <= length (data_msgs (events_of fs)))%nat ->
+    let outs1 := fst (run_ops inflate1 c1 (init_rst b1) (flat_map ops_of_call cs1)) in
+    let outs2 := fst (run_ops inflate2 c2 (init_rst b2) (flat_map ops_of_call cs2)) in
+    eof_closed true outs1 = true -> eof_closed true outs2 = true ->
+    gather None outs1 = gather None outs2.
+Proof. exact reader_api_independent2. Qed.
+Print Assumptions C03_two_programs_agree.
+
+(* The hypotheses are satisfiable: "Hello" in three fragments (one empty) with a ping between
+   the fragments, a two-fragment binary message that the program abandons after 2 bytes, a ping,
+   "xyz", a last ping; 5-byte or one-shot transport chunking, any fault, glued or not. *)
+Example C03_any_read_program_instance : forall n flt gl, n = 5%nat \/ n = 200%nat ->
+  exists outs s',
+    run_ops (fun _ => None) ReadProgDemo.ex_cfg (init_rst (ReadProgDemo.ex_b n flt gl))
+            (ops_of_prog [[2;1;100;7;7]; [2]; [1;1;1;1]]%nat) = (outs, s') /\
+    prog_ok [(1, false, [72;101;108;108;111]); (2, false, [1;2;3;4;5]); (1, false, [120;121;122])]
+            [[2;1;100;7;7]; [2]; [1;1;1;1]]%nat outs /\
+    reached ReadProgDemo.ex_fs [] s'.
+Proof. exact ReadProgDemo.demo_general. Qed.
+Print Assumptions C03_any_read_program_instance.
+
+(* what the model computes on that stream delivered 5 bytes at a time *)
+Example C03_any_read_program_run :
+  let r := run_ops (fun _ => None) ReadProgDemo.ex_cfg (init_rst (ReadProgDemo.ex_b 5 EOther true))
+             (ops_of_prog [[2;1;100;7;7]; [2]; [1;1;1;1]]%nat) in
+  fst r = [RNext 1 None; RData [72;101] None; RData [108] None; RData [108] None; RData [111] None;
+           RData [] (Some RIoEOF);
+           RNext 2 None; RData [1;2] None;
+           RNext 1 None; RData [120] None; RData [121] None; RData [122] None; RData [] (Some RIoEOF)] /\
+  wlog (snd r) = [WPong [112;49]; WPong [113]].
+Proof. vm_compute. auto. Qed.
+Print Assumptions C03_any_read_program_run.
+
+(* The added hypothesis is forced: when NOTHING follows the last data frame and the transport
+   delivers io.EOF together with the last payload bytes, the last Read returns those bytes AND
+   io.EOF in one call and the next Read on the same reader returns 1006 "unexpected EOF". *)
+Example C03_why_a_byte_must_follow :
+  conformant_frames ReadProgDemo.ex_cfg ReadProgDemo.cx_fs /\ binv ReadProgDemo.cx_b /\
+  (125 <= bsize ReadProgDemo.cx_b)%nat /\
+  pending ReadProgDemo.cx_b = encode_frames ReadProgDemo.cx_fs ++ [] /\ trailer ReadProgDemo.cx_fs = [] /\
+  data_msgs (events_of ReadProgDemo.cx_fs) = [(2, false, ReadProgDemo.cx_payload)] /\
+  (forall outs s', run_ops (fun _ => None) ReadProgDemo.ex_cfg (init_rst ReadProgDemo.cx_b)
+                     (ONext :: map ORead [200;200]%nat) = (RNext 2 None :: outs, s') ->
+     outs = [RData ReadProgDemo.cx_payload (Some RIoEOF); RData [] (Some unexpected_eof)] /\
+     ~ reads_ok ReadProgDemo.cx_payload [200;200]%nat outs).
+Proof. exact ReadProgDemo.glued_eof_counterexample. Qed.
+Print Assumptions C03_why_a_byte_must_follow.
